@@ -3,7 +3,9 @@ package checks
 import (
 	"context"
 	"fmt"
+	"github.com/lightninglabs/lightning-node-connect/mailbox"
 	"math/rand"
+	"net"
 	"sync"
 	"sync/atomic"
 	"testing"
@@ -21,7 +23,7 @@ func TestC12(t *testing.T) {
 	mon.Main(t, mon.Check{
 		ID:    "C12",
 		Level: "exploration",
-		Rule:  "each case draws a GBN scenario (random N, timeouts, keepalive, latency, mild faults, bidirectional traffic with idle gaps), runs it once to collect the virtual instants of its wire events (if that run's bubble freezes, the scenario is repeated on the real clock with a Close by both ends after the fault phase), then re-runs it K times injecting Close at one of those instants (-1ns/0/+1ns) or at a random instant, by client / server / both at the same instant / twice concurrently, with the transport working / blackholed / its send blocking until cancellation; plus handshake-phase cancellation cases, a real-time slice with a transport whose send blocks, and a real-time slice that runs a scripted mailbox-level session (closes by either side, relay failures, Server.Close) and then takes the goroutine census of the process. Oracles: Close returns within finSendTimeout+2s of virtual time (it must not wait for resend or sync timers); later Send/Recv fail at once; FIN on the wire when the transport works; peer closes itself when the FIN is delivered; every blocked caller returns; the closed endpoint puts nothing but its FIN on the wire afterwards; no goroutine of gbn alive in the bubble afterwards. Non-trivial = a Close was injected while the connection was open; distinct = (closer, transport condition, phase bucket, what the send loop was doing).",
+		Rule:  "each case draws a GBN scenario (random N, timeouts, keepalive, latency, mild faults, bidirectional traffic with idle gaps), runs it once to collect the virtual instants of its wire events (if that run's bubble freezes, the scenario is repeated on the real clock with a Close by both ends after the fault phase), then re-runs it K times injecting Close at one of those instants (-1ns/0/+1ns) or at a random instant, by client / server / both at the same instant / twice concurrently, with the transport working / blackholed / its send blocking until cancellation; plus handshake-phase cancellation cases, a real-time slice with a transport whose send blocks, a real-time slice that closes a mailbox-level connection whose transport write is blocked by backpressure (relay mailboxes of four messages, peer dead; bound ping+pong+6 s), and a real-time slice that runs a scripted mailbox-level session (closes by either side, relay failures, Server.Close) and then takes the goroutine census of the process. Oracles: Close returns within finSendTimeout+2s of virtual time (it must not wait for resend or sync timers); later Send/Recv fail at once; FIN on the wire when the transport works; peer closes itself when the FIN is delivered; every blocked caller returns; the closed endpoint puts nothing but its FIN on the wire afterwards; no goroutine of gbn alive in the bubble afterwards. Non-trivial = a Close was injected while the connection was open; distinct = (closer, transport condition, phase bucket, what the send loop was doing).",
 		Assumptions: []string{
 			"goroutine census covers goroutines, not bare time.Ticker objects without a goroutine",
 			"virtual time (synctest): bounds are exact, schedules sampled",
@@ -55,6 +57,10 @@ func runC12(c *mon.Case) {
 	}
 	if c.Idx%16 == 6 {
 		runC12BlockSend(c)
+		return
+	}
+	if c.Idx%240 == 101 {
+		runC12MailboxBackpressure(c)
 		return
 	}
 	if c.Idx%60 == 59 {
@@ -628,6 +634,113 @@ func runC12BlockSend(c *mon.Case) {
 // failures) by running one scripted session of the C11 engine on the real
 // clock, and then takes the goroutine census of the whole worker process: once
 // the session is stopped nothing may be left in gbn or mailbox code.
+// runC12MailboxBackpressure: Close at the mailbox level while the transport's
+// send is blocked. A paired mailbox session over a relay whose mailboxes hold
+// four messages, one party uploading; the other party stops reading and
+// sending; a moment later (before any keepalive can have fired) the uploader's
+// application closes its connection. Close may have to wait for the blocked
+// write (the stream's send mutex is held), and that write ends when the write
+// watchdog of ping + pong time fires: bound ping + pong + 6 s. Afterwards Read
+// and Write fail at once.
+func runC12MailboxBackpressure(c *mon.Case) {
+	rng := rand.New(rand.NewSource(c.Seed))
+	pass := eng.Entropy(rng)
+	relay := sim.NewRelay()
+	relay.KeepMsg, relay.KeepLog = false, false
+	relay.Cap = 4
+	s := eng.NewMboxParty(eng.NewKey(rng), nil, pass, []byte("auth"), 0, 2)
+	cl := eng.NewMboxParty(eng.NewKey(rng), nil, pass, nil, 0, 2)
+	sid, _ := cl.CD.SID()
+	c2s, s2c := sidHex(mailbox.GetSID(sid, false)), sidHex(mailbox.GetSID(sid, true))
+	serverDies := rng.Intn(2) == 0
+	var dead atomic.Bool
+	relay.Fault = func(op sim.RelayOp) sim.RelayAction {
+		if dead.Load() && op.Kind == "send" && ((serverDies && op.Stream == s2c) || (!serverDies && op.Stream == c2s)) {
+			return sim.RelayAction{Drop: true}
+		}
+		return sim.RelayAction{}
+	}
+	m, err := eng.NewMboxSession(relay, s, cl)
+	if err != nil {
+		c.Shard.Inconc("mailbox backpressure session: " + err.Error())
+		return
+	}
+	m.StartServer()
+	m.StartClient()
+	var sc, cc net.Conn
+	deadline := time.After(60 * time.Second)
+	for sc == nil || cc == nil {
+		select {
+		case sc = <-m.SConns:
+		case cc = <-m.CConns:
+		case <-deadline:
+			c.Shard.Inconc("mailbox backpressure session: no paired connection within 60 s")
+			m.Stop()
+			return
+		}
+	}
+	up, down := cc, sc
+	if !serverDies {
+		up, down = sc, cc
+	}
+	go func() {
+		b := make([]byte, 65536)
+		for {
+			if _, err := down.Read(b); err != nil {
+				return
+			}
+		}
+	}()
+	var inWrite atomic.Bool
+	go func() {
+		for i := 0; i < 4000; i++ {
+			inWrite.Store(true)
+			_, err := up.Write(eng.StreamBytes('z', i*32768, 32768))
+			inWrite.Store(false)
+			if err != nil {
+				return
+			}
+		}
+	}()
+	time.Sleep(time.Duration(500+rng.Intn(500)) * time.Millisecond)
+	dead.Store(true)
+	if serverDies {
+		relay.FreezeReads(c2s, true)
+	} else {
+		relay.FreezeReads(s2c, true)
+	}
+	time.Sleep(time.Duration(500+rng.Intn(1500)) * time.Millisecond)
+	who := map[bool]string{true: "client", false: "server"}[serverDies]
+	bound := 7*time.Second + 3*time.Second + 6*time.Second
+	rep := map[string]any{"kind": "mailbox-backpressure", "closer": who, "relay_capacity": relay.Cap, "bound": bound.String()}
+	closed := make(chan struct{})
+	t0 := time.Now()
+	go func() { _ = up.Close(); close(closed) }()
+	select {
+	case <-closed:
+		c.Shard.Max("max_close_mailbox_backpressure_ms", time.Since(t0).Milliseconds())
+	case <-time.After(bound):
+		c.Shard.Violate("close-hangs|mailbox-backpressure",
+			fmt.Sprintf("mailbox session over a relay that holds %d messages per mailbox, the %s uploading, its peer dead: Close of the %s's connection had not returned after %v", relay.Cap, who, who, bound), rep)
+		mon.FlushAndExit(c.Shard)
+	}
+	time.Sleep(200 * time.Millisecond)
+	if inWrite.Load() {
+		c.Shard.Violate("blocked-caller-not-woken|mailbox-backpressure", "Close has returned but the application's Write on that connection is still blocked", rep)
+	}
+	t1 := time.Now()
+	if _, err := up.Write([]byte("x")); err == nil {
+		c.Shard.Violate("send-after-close-ok|mailbox", "Write returned nil after Close returned", rep)
+	}
+	if time.Since(t1) > 2*time.Second {
+		c.Shard.Violate("call-after-close-blocks|mailbox", fmt.Sprintf("Write after Close took %v", time.Since(t1)), rep)
+	}
+	_ = down.Close()
+	m.Stop()
+	c.Shard.Count("mailbox_backpressure_closes", 1)
+	c.Shard.Eval("MB|" + who)
+}
+
 func runC12Mailbox(c *mon.Case) {
 	r := c11Session(c.Rng.Int63(), 90*time.Second)
 	if c12Frozen.Load() {
